@@ -285,6 +285,27 @@ class Run:
             print("replay names a broken obligation, not an input:", rep.get("what"))
             print("\n".join(rep.get("broken", [])))
             return 1
+        if req.startswith("cli-args "):
+            # black-box replay of a command line against the real binary, the Cli model and the canonical semantics
+            import cli_tie
+            d = json.loads(req[len("cli-args "):])
+            self.lean.build(["driver"])
+            okb, binary, out = cli_tie.build_cli("release" if "release" in (rep.get("stream") or "") else "debug")
+            if not okb:
+                print(out[-2000:]); return 2
+            files = {k: tuple(v) for k, v in d.get("files", {}).items()}
+            for name, (kind, content) in files.items():      # recreate the files the case referred to
+                if kind == "ok" and not os.path.exists(name):
+                    os.makedirs(os.path.dirname(name) or ".", exist_ok=True)
+                    open(name, "w").write(content)
+                elif kind == "utf8" and not os.path.exists(name):
+                    os.makedirs(os.path.dirname(name) or ".", exist_ok=True)
+                    open(name, "wb").write(b"+\xff\xfe.")
+            cli_tie.add_existing(d["args"], files)
+            v, _ = cli_tie.expected_and_compare(self.driver, binary, d["args"], files, bytes.fromhex(d.get("stdin", "")))
+            print("command line:", d["args"])
+            print("AGREE" if not v else "DIFFER: " + v)
+            return 0 if not v else 1
         h = Harness("debug")
         ok, out = h.build()
         if not ok:
